@@ -5,6 +5,9 @@ Model driver of C14.
 
   tail <hexid>          → `ok <registration>` | `ok none` | `panic`
   country <hexid>       → `ok reg=<r> country=<c> pattern=<p> category=<k>` (`-` for None) | `panic`
+                          (`infoChecked`: with the JSON load, the `start`/`end` parses and `Regex::new` as checked steps)
+  infos x<hex of utf-8> → the same for `aircraft_information(<that text>, None)`, `err` when the text is no
+                          hexadecimal u32 (`infoStr`)
   pair <a> <b>          → `<tail a> | <tail b>` (replay form of an injectivity violation)
   tails <lo> <count>    → `ok some=<n> panic=<n> fnv=<16 hex digits>`: FNV-1a (64 bit) of the `tail` answers
                           of `lo, lo+1, …, lo+count-1`, each followed by `\n` (the exhaustive tier sends the
@@ -49,7 +52,13 @@ def tailsLoop : Nat → Nat → UInt64 → Nat → Nat → (UInt64 × Nat × Nat
 
 def handle : List String → Option String
   | ["tail", n] => n.toNat?.bind fun h => if h < 2 ^ 32 then some (showTail (tailStr h)) else none
-  | ["country", n] => n.toNat?.bind fun h => if h < 2 ^ 32 then some (showInfo (info h)) else none
+  | ["country", n] => n.toNat?.bind fun h => if h < 2 ^ 32 then some (showInfo (infoChecked h)) else none
+  | ["infos", t] =>
+    match t.toList with
+    | 'x' :: rest =>
+      (parseHex (String.ofList rest)).bind fun bs =>
+        (String.fromUTF8? (ByteArray.mk (bs.map UInt8.ofNat).toArray)).map fun s => showInfo (infoStr s.toList)
+    | _ => none
   | ["pair", a, b] =>
     match a.toNat?, b.toNat? with
     | some a, some b =>
